@@ -108,6 +108,37 @@ func terminalField(e *an.Expr) string {
 	return "?"
 }
 
+// truncationUnits lists the constant units of the Truncate/Round calls that
+// feed the equality a two-duration comparison helper returns (helpers it calls
+// are looked through).
+func truncationUnits(c *Ctx, f *ssa.Function) []int64 {
+	var units []int64
+	seen := map[string]bool{}
+	for _, p := range c.pathsO("R-C12-2", f, an.PathOpts{}) {
+		if p.Ret == nil || len(p.Results) != 1 {
+			continue
+		}
+		res := p.Results[0]
+		if res.Op != an.OpBin || (res.Tok != token.EQL && res.Tok != token.NEQ) {
+			continue
+		}
+		res.Walk(func(e *an.Expr) bool {
+			if e.Op == an.OpCall && e.Fn != nil && (e.Fn.String() == "(time.Duration).Truncate" || e.Fn.String() == "(time.Duration).Round") && len(e.Args) == 2 {
+				k, isC := e.Args[1].ConstInt()
+				if !isC {
+					k = -1
+				}
+				if !seen[e.String()] {
+					seen[e.String()] = true
+					units = append(units, k)
+				}
+			}
+			return true
+		})
+	}
+	return units
+}
+
 func c12Fields(c *Ctx, reach map[*ssa.Function]bool) {
 	want := map[string][]string{
 		"corerad.checkRAs":           {"CurrentHopLimit", "ManagedConfiguration", "OtherConfiguration"},
@@ -240,8 +271,31 @@ func c12Fields(c *Ctx, reach map[*ssa.Function]bool) {
 				okEq = true
 			}
 		}
+		// granularity: the two timers travel as whole milliseconds; what is compared is each side truncated to
+		// exactly that unit (a coarser unit hides real differences, a finer one reports differences that do not
+		// exist on the wire)
+		units := truncationUnits(c, f)
+		okUnit := len(units) > 0
+		for _, u := range units {
+			if u != 1000000 {
+				okUnit = false
+			}
+		}
+		c.R.Check(okUnit, "R-C12-2", c.fname(f)+":wire-granularity", c.fname(f), c.pos(f.Pos()), fmt.Sprintf("operands of the comparison are truncated to %v ns", units),
+			"reachable/retransmit timers are compared as whole milliseconds", "timers that differ on the wire by less than the comparison unit are not reported (or equal ones are)")
 		c.R.Check(okZero == 2 && okEq, "R-C12-2", c.fname(f)+":unspecified-is-consistent", c.fname(f), c.pos(f.Pos()), fmt.Sprintf("zero on either side ⇒ true: %d arm(s); otherwise want == got: %v", okZero, okEq),
 			"timers are compared only when both are non-zero", "an unspecified (0) timer is reported as inconsistent")
+	}
+	if f := c.P.Func("internal/corerad", "sameSeconds"); f != nil {
+		units := truncationUnits(c, f)
+		okUnit := len(units) > 0
+		for _, u := range units {
+			if u != 1000000000 {
+				okUnit = false
+			}
+		}
+		c.R.Check(okUnit, "R-C12-2", c.fname(f)+":wire-granularity", c.fname(f), c.pos(f.Pos()), fmt.Sprintf("operands of the comparison are truncated to %v ns", units),
+			"lifetimes are compared as whole seconds", "lifetimes that differ on the wire are not reported, or an RA equal to our own after a wire round trip is")
 	}
 	// the helper is applied to the like-named timers of both RAs
 	if f := c.P.Func("internal/corerad", "checkRAs"); f != nil {
